@@ -966,6 +966,17 @@ class ConnectedShape(DefinedShape):
             return False
         if abs(float(self) - float(other)) > 1e-6:
             return False
+        # Same area is not enough: the subshapes must be equal
+        if len(self.subshapes) != len(other.subshapes):
+            return False
+        othersubshapes = list(other.subshapes)
+        for subshape in self.subshapes:
+            for j, othersubshape in enumerate(othersubshapes):
+                if subshape == othersubshape:
+                    othersubshapes.pop(j)
+                    break
+            else:
+                return False
         return True
 
     def __invert__(self) -> DisjointShape:
